@@ -6,8 +6,9 @@ import os
 # /repo has all three.  VERIF_C06_FIXES overrides it (e.g. to check a worktree in which one of them is reverted
 # against the model of that tree).
 _FIXES = os.environ.get("VERIF_C06_FIXES", "all_fix")
-# fixes/C06-F6.diff (the processor refuses rule sets with a duplicate rule id): "true" once it is in the tree under test
-_F6 = os.environ.get("VERIF_C06_F6", "false")
+# fix: commit 5e2c60e (fixes/C06-F6.diff: the processor refuses rule sets with a duplicate rule id) is in /repo: "true";
+# VERIF_C06_F6=false checks a tree in which it is reverted against the model of that tree
+_F6 = os.environ.get("VERIF_C06_F6", "true")
 
 P = {
     "id": "C06",
@@ -17,7 +18,7 @@ P = {
     "theorems": ["C06_history_equals_fresh", "C06_history_equals_fresh_any", "C06_lookups_equal_fresh",
                  "C06_delete_cleans", "C06_rejected_iff_cannot_apply", "C06_deleted_never_match",
                  "C06_current_rules_indexed", "C06_same_source_constraint",
-                 "C06_F1_refuted", "C06_F2_refuted", "C06_F6_refuted",
+                 "C06_F1_refuted", "C06_F2_refuted", "C06_F6_pinned_refuted",
                  "C06_F3_pinned_refuted", "C06_F4_pinned_refuted", "C06_F4_pinned_panic", "C06_F5_pinned_refuted",
                  "C06_repaired_examples", "C06_nonvacuous",
                  "C06_tree_add_refines", "C06_tree_delete_refines", "C06_radix_delete_refines_machine",
@@ -42,8 +43,8 @@ P = {
             "version to version (one field of the definition only - execute, forward_to, hosts, scheme, allow_encoded_slashes, "
             "on_error, path_params - / methods / flag / paths added-removed-replaced / rule added anywhere / removed / reordered / "
             "unchanged / EMPTY set; deletion of unknown sources; cross-source collisions, invalid expressions, escapes, ':' '*' inside "
-            "segments, varying wildcard names, empty / percent-encoded / non-ASCII segments, no leading slash, duplicate paths and ids "
-            "in dedicated profiles); after EVERY prefix 10..40 probe requests (instantiations of the expressions in use and near misses, "
+            "segments, varying wildcard names, empty / percent-encoded / non-ASCII segments, no leading slash, duplicate paths and "
+            "duplicate rule ids - which the processor must refuse - in dedicated profiles); after EVERY prefix 10..40 probe requests (instantiations of the expressions in use and near misses, "
             "3 methods, a quarter of them handed over as URL.RawPath) are looked up in the history repository and in a real repository "
             "freshly loaded with the sets accepted so far; the rule found AND the captures left in the request are observed.  Corpus "
             "(witnesses of C06-F1..F6 incl. the repaired F3/F4/F5 and the former delNode panic, plain histories) first.  Non-trivial = "
@@ -60,8 +61,8 @@ P = {
                 "delivered to conditions are property C03",
                 "rule hash modelled by its pre-image (the whole definition); object identity of rules and routes (pointer comparison "
                 "in slices.Contains and, since fix 003095f, in the value matcher of removeRulesFrom) is modelled by structural "
-                "equality: the same unless two equal rule objects are loaded at once, which needs duplicate ids in a set (C06-F6) or "
-                "the creation of an existing set; from the step after that happened in a history (a few percent of the generated ones) "
+                "equality: the same unless two equal rule objects are loaded at once, which (duplicate ids being refused since 5e2c60e) "
+                "needs the creation of an existing set; from the step after that happened in a history (a few percent of the generated ones) "
                 "models and implementation are not compared any more, only the implementation's own history-vs-fresh comparison "
                 "is evaluated",
                 "the rule factory behind the real rule-set processor is a stub that turns a config.Rule into a ruleImpl (id, source, "
@@ -69,14 +70,15 @@ P = {
                 "sortStaticChildren/priority left out of the transcription (only permutes children searched by unique first byte)"],
     "level_text": "Proof (kernel-checked, no axioms), by induction over ALL histories of rule-set creations/updates/deletions with an "
                   "invariant relating the known rules and the index to the specification's current rule sets, kept per source: for the "
-                  "tree as it is now (repairs 2d9cd1f, 003095f, f6ce52b of C06-F3/F4/F5), whenever no source is left in the state the open "
+                  "tree as it is now (repairs 2d9cd1f, 003095f, f6ce52b, 5e2c60e of C06-F3/F4/F5/F6; main statements: the C06_F6_repaired_* "
+                  "theorems about the repository behind the rule-set processor), whenever no source is left in the state the open "
                   "findings C06-F1/F2 leave (`dirty ops = []`; deleting a rule set cleans its source), the index after the history EQUALS "
                   "the index of a fresh load of the current sets (hence every lookup, for every path and every outcome of the rules' "
                   "conditions, finds the same rule).  Also for histories that went through C06-F1/F2: a change is rejected iff it cannot "
-                  "be applied (invalid expression incl. incompatible wildcard names / expression owned by another set) and then leaves "
+                  "be applied (duplicate rule id / invalid expression incl. incompatible wildcard names / expression owned by another set) and then leaves "
                   "the state unchanged; lookups only return rules of current versions; every route of every current rule is indexed; a "
-                  "node holds rules of one source.  Only hypothesis besides well-formedness: no submitted rule set has duplicate rule ids "
-                  "(C06-F6).  Every finding has a `_refuted` / `_pinned_refuted` witness.  The model is tied to the Go code by running "
+                  "node holds rules of one source.  No hypothesis besides well-formedness (a rule set is created only when it does not "
+                  "exist): that rule ids are unique is a consequence of acceptance since the repair of C06-F6.  Every finding has a `_refuted` / `_pinned_refuted` witness.  The model is tied to the Go code by running "
                   "~1200 (quick) / 24000 (thorough) generated histories per run through the real processor+repository and comparing, after "
                   "every prefix, accept/reject/crash and lookups with the transcribed tree and the abstract model; the property predicate "
                   "itself is model-free (accepted iff the specification says so; history repository = freshly built REAL repository, rule "
@@ -99,8 +101,9 @@ P = {
                   "history-vs-fresh on the implementation.  (3) The order clause of the statement is refuted (C06-F1), not proved; inside `dirty` only the membership-level "
                   "theorems hold.  (4) That a rejected change leaves no trace is true of the model by construction (work on a value); "
                   "clone depth / swap-on-success are covered by the differential run only.  Open findings: C06-F1 changed rule "
-                  "re-appended / reordering ignored, C06-F2 node flag = last Add, C06-F6 duplicate rule ids.  Repaired by fix: commits: "
-                  "C06-F3, C06-F4 (incl. a delNode panic), C06-F5; pinned behaviour documented by `_pinned_refuted` theorems.  Histories "
+                  "re-appended / reordering ignored, C06-F2 node flag = last Add.  Repaired by fix: commits: "
+                  "C06-F3, C06-F4 (incl. a delNode panic), C06-F5, C06-F6 (duplicate rule ids; the theorems about the bare repository "
+                  "`run` keep the hypothesis `guard_dupid = false`, the C06_F6_repaired_* ones do not need it); pinned behaviour documented by `_pinned_refuted` theorems.  Histories "
                   "that create an already existing rule set are judged up to that step.  Trusted: Coq kernel/vm_compute; the harness "
                   "(generator, stub rule factory, Gallina rendering).",
     "assumptions": ["the driver's stub factory constructs ruleImpl/routeImpl values directly (in-package): a rename of their fields breaks "
